@@ -694,6 +694,14 @@ theorem limits_leaves : Leaves (keeps LimitsInv) where
   forget := fun b c h => limitsInv_forget b c h
   expire := fun b h => ⟨h.ids, h.conns, fun _ => Nat.zero_le _, h.completed, h.per_user⟩
   expireSome := fun b f h => ⟨h.ids, h.conns, fun x => Nat.le_trans (callsOf_filter _ _ _) (h.pending x), h.completed, h.per_user⟩
+  setPolicy := fun b p h => by
+    refine limitsInv_map (b := b) (fun x => if x.name.isSome then { x with policy := p.clientRules x.uid x.gids false } else x) rfl rfl rfl ?_ ?_ ?_ ?_ h
+    · intro x; (try dsimp only); split <;> rfl
+    · intro x; (try dsimp only); split <;> rfl
+    · intro x; (try dsimp only); split <;> rfl
+    · intro x _ hok; (try dsimp only); split
+      · exact hok
+      · exact hok
   acquire := fun t c n flags hact h => limitsInv_acquire t c n flags hact h
   release := fun t c n h => limitsInv_release t c n h
   removeOwner := fun t n c h => limitsInv_removeOwner t n c h
